@@ -217,6 +217,10 @@ func (e *Engine) allocFingerprints(fn *ssa.Function) map[*ssa.Alloc]string {
 				bad = true
 			}
 		}
+		if nInit == 0 && a.Comment != "rangeindex" {
+			// `var i int`: zero-initialised without a store
+			nInit, initOK = 1, true
+		}
 		if bad || nInc != 1 || nInit != 1 || !initOK || incLoop == nil {
 			return ""
 		}
